@@ -1,8 +1,11 @@
 (* C17 — comments in untouched declarations survive; none are invented or duplicated.
-   PARTIAL: the bookkeeping that decides which comments are dropped is proved; which spans
-   astdiff reports as changed and how go/printer places the surviving comments are
-   observed, not modelled (see the end of this file). *)
-From GP Require Import Comments CommentFacts.
+   PARTIAL: proved are (1) the bookkeeping that decides which comments are dropped, (2) that the
+   spans internal/astdiff reports for a changed list element stay within that element and the
+   gaps around it, and hence (3) that the comments the comment map attaches to a declaration
+   which the edit script pairs as identical survive every clean-up.  How go/printer places
+   the surviving comments, which comments ast.NewCommentMap attaches to which node and which
+   pairs internal/diff finds identical are observed, not modelled (see the end of this file). *)
+From GP Require Import Comments CommentFacts AstDiff AstDiffFacts.
 Local Open Scope Z_scope.
 
 (* No comment is invented, duplicated or reordered, whatever the changes report: after any
@@ -52,6 +55,64 @@ Theorem C17_untouched_general : forall steps cs c (R : Z -> Prop),
 Proof. exact outside_changed_set_survives. Qed.
 Print Assumptions C17_untouched_general.
 
+(* ---- internal/astdiff (Model/AstDiff.v: changeFinder.Walk, walkStruct, walkSlice, commentsFor) ----
+   Every span a walk reports starts at NoPos, is empty, or lies within [lo, hi], when the walked
+   subtree is bounded by [lo, hi] (positions of its nodes and tokens and of the comments attached
+   to nested nodes) and the region the walk starts with is. *)
+Theorem C17_spans_stay_within_the_walked_subtree : forall lo hi, nopos <= lo -> lo <= hi ->
+  forall script k r from to w,
+  bounded_root lo hi from -> Inv lo hi r -> walk script k r from to = Some w ->
+  Forall (Good lo hi) (w_log w).
+Proof. intros lo hi H1 H2 script k r from to w. exact (walk_bounded_root lo hi H1 H2 script k r from to w). Qed.
+Print Assumptions C17_spans_stay_within_the_walked_subtree.
+
+(* A list of nodes in source order (the declarations of a file, the statements of a block) is
+   diffed against its new version; element j is paired as identical by the edit script.  Then
+   no span the walk of the list reports holds a position of a comment attached to element j
+   (before it and after the previous element, after it and before the next element, or inside
+   it), unless the span starts at NoPos.  The side conditions are boolean and evaluated on every
+   snapshot of a check run. *)
+Theorem C17_identical_declaration_is_clear_of_every_span :
+  forall script k r t xs t' en ys w j xj c,
+  walk script (S k) r (VSlice t true xs) (VSlice t' en ys) = Some w ->
+  N.eqb t t' = true -> N.eqb t T_object = false -> N.eqb t T_cgroup = false ->
+  list_okb r xs (xedits (script xs ys)) = true ->
+  nth_error xs j = Some xj -> nth_error (xedits (script xs ys)) j = Some Identity ->
+  fst c < snd c -> attachedb xs j xj c = true ->
+  Forall (not_inside c) (w_log w).
+Proof. exact identity_element_keeps_its_comments_b. Qed.
+Print Assumptions C17_identical_declaration_is_clear_of_every_span.
+
+(* ... and such a comment survives all clean-ups of the run, whatever the replacers report as
+   unchanged: the changelog records the spans that do not start at NoPos (record_changed), the
+   changed intervals are those minus the unchanged spans, and a comment is dropped only when it
+   lies entirely inside one of them. *)
+Theorem C17_clear_comment_survives : forall (steps : list (list region * list iv)) cs cm,
+  In cm cs -> c_pos cm < c_end cm ->
+  (forall s, In s steps -> Forall (not_inside (c_pos cm, c_end cm)) (fst s)) ->
+  In cm (run_steps (map (fun s => (record_changed (fst s), snd s)) steps) cs).
+Proof. exact clear_comment_survives. Qed.
+Print Assumptions C17_clear_comment_survives.
+
+(* the premises are satisfiable: three declarations, the middle one modified; the comments of the
+   outer two (a doc comment, a trailing comment) are attached, the list is well-formed, the walk
+   reports a non-empty span, and it keeps clear of both comments *)
+Example C17_identical_ex :
+  let mk := fun (p e : Z) (cm : list cgroup) (a : N) =>
+    VRef 20 {| n_isnode := true; n_pos := p; n_end := e; n_cmts := cm |} (VStruct 21 [VPos p; VAtom 22 a]) in
+  let xs := [mk 20 30 [[(10, 19)]] 1%N; mk 40 50 [] 2%N; mk 60 70 [[(71, 80)]] 3%N] in
+  let ys := [mk 20 30 [] 1%N; mk 40 50 [] 9%N; mk 60 70 [] 3%N] in
+  let r := (5, 90) in
+  match walk the_script 5 r (VSlice 18 true xs) (VSlice 18 true ys) with
+  | Some w => w_log w = [(30, 60)]
+              /\ xedits (the_script xs ys) = [Identity; Modified; Identity]
+              /\ list_okb r xs (xedits (the_script xs ys)) = true
+              /\ attachedb xs 0 (mk 20 30 [[(10, 19)]] 1%N) (10, 19) = true
+              /\ attachedb xs 2 (mk 60 70 [[(71, 80)]] 3%N) (71, 80) = true
+  | None => False
+  end.
+Proof. vm_compute. repeat split; reflexivity. Qed.
+
 Example C17_ex :
   let cs := [ {| c_id := 1; c_pos := 0; c_end := 10 |};       (* header *)
               {| c_id := 2; c_pos := 40; c_end := 50 |};      (* inside the rewritten call *)
@@ -60,10 +121,10 @@ Example C17_ex :
   map c_id (run_steps [([(30, 90)], [(52, 70)])] cs) = [1%N; 3%N; 4%N].
 Proof. vm_compute. reflexivity. Qed.
 
-(* Not modelled: (a) internal/astdiff (which spans a changed subtree is charged with: the
-   region of a changed list element stretches to its neighbours, clamped by the comments the
-   comment map attaches to them) - checks/c17.py verifies on every case that the spans of a
-   run stay within the rewritten declarations and their surrounding gaps, the hypothesis of
-   the last theorem; (b) go/printer and imports.Process (that every comment left in
+(* Not modelled: (a) ast.NewCommentMap (which comments a node carries: an input of the astdiff
+   model, read from the snapshot) and the pairing found by internal/diff.Difference (transcribed
+   and executed in Model/AstDiff.v, an oracle [script] in the theorems) - checks/c17.py runs the
+   model on the snapshots of every step and compares the Changed calls and the new snapshot
+   with the code's, and evaluates the side conditions; (b) go/printer and imports.Process (that every comment left in
    File.Comments is printed once, next to the declaration its position belongs to) - judged on
    the re-parsed output per declaration. *)
